@@ -383,3 +383,72 @@ M("C20", "checksum-accumulator-loop-keeps-slash", U, C8_BODY, C8_LOOP.replace('t
 M("C20", "checksum-accumulator-loop-filter-backslash", U, C8_BODY, C8_LOOP_FILTER.replace('ch != "/"', 'ch != "\\\\"'), "C20.R3")
 M("C20", "checksum-accumulator-loop-mod-255", U, C8_BODY, C8_LOOP.replace("acc % 256", "acc % 255"), "C20.R3")
 M("C20", "checksum-accumulator-loop-starts-at-one", U, C8_BODY, C8_LOOP.replace("acc = 0\n", "acc = 1\n"), "C20.R3")
+
+# ============================================================================================================ wave 3
+# ---- R1: block-wise xor.  A piece that reads only its slice and the key (not where the slice starts) restarts the key at
+# its first byte, so every slice must start at a multiple of len(key); a position-aware piece must rotate the key by
+# start % len(key); consecutive slices must tile the data.  Stateful iterators / unknown strides stay undecided.
+BLK_HELPER = "def _xor_small(data: bytes, key: bytes) -> bytes:\n    size = len(data)\n" + XOR_TILE + XOR_RET + "\n\n"
+BLK_LOOP = (
+    XOR_GUARD + "    out = bytearray()\n    for start in range(0, len(data), 4096):\n"
+    "        out += _xor_small(data[start : start + 4096], key)\n    return bytes(out)\n"
+)
+BLK_INLINE = (
+    XOR_GUARD + '    out = b""\n    for start in range(0, len(data), 8192):\n        chunk = data[start : start + 8192]\n'
+    "        stream = (key * (len(chunk) // len(key) + 1))[: len(chunk)]\n"
+    '        out += int.to_bytes(int.from_bytes(chunk, "little") ^ int.from_bytes(stream, "little"), len(chunk), "little")\n    return out\n'
+)
+BLK_RECURSIVE = XOR_GUARD + "    if len(data) > 1024:\n        return xor(data[:1024], key) + xor(data[1024:], key)\n"
+BLK_STRIDE = (
+    XOR_GUARD + "    step = 1024 * len(key)\n"
+    '    return b"".join(_xor_small(data[o : o + step], key) for o in range(0, len(data), step))\n'
+)
+BLK_ROTATED = (
+    XOR_GUARD + "    pieces = []\n    for start in range(0, len(data), 4096):\n        r = start % len(key)\n"
+    '        pieces.append(_xor_small(data[start : start + 4096], key[r:] + key[:r]))\n    return b"".join(pieces)\n'
+)
+BLK_ROUNDED = (
+    XOR_GUARD + "    step = max(len(key), 65536 - 65536 % len(key))\n"
+    '    return b"".join([_xor_small(data[o : o + step], key) for o in range(0, len(data), step)])\n'
+)
+BLK_CYCLE = (
+    XOR_GUARD + "    stream = itertools.cycle(key)\n"
+    '    return b"".join(bytes(b ^ next(stream) for b in data[o : o + 4096]) for o in range(0, len(data), 4096))\n'
+)
+M("C20", "xor-blocks-accumulator-loop-key-restarts", U, "", "", "C20.R1", edits=[(U, XOR_DEF, BLK_HELPER + XOR_DEF), (U, XOR_BODY, BLK_LOOP)])
+M("C20", "xor-blocks-inline-pieces-key-restarts", U, XOR_BODY, BLK_INLINE, "C20.R1")
+M("C20", "xor-head-tail-recursion-key-restarts", U, XOR_GUARD, BLK_RECURSIVE, "C20.R1")
+M("C20", "xor-blocks-one-byte-gap", U, "", "", "C20.R1", edits=[(U, XOR_DEF, BLK_HELPER + XOR_DEF), (U, XOR_BODY, BLK_STRIDE.replace("data[o : o + step]", "data[o : o + step - 1]"))])
+M("C20", "xor-blocks-helper-short-tiling", U, "", "", "C20.R1", edits=[(U, XOR_DEF, BLK_HELPER.replace(" + 1)", ")") + XOR_DEF), (U, XOR_BODY, BLK_STRIDE)])
+T("C20", "twin-xor-blocks-stride-multiple-of-key-length", U, "", "", edits=[(U, XOR_DEF, BLK_HELPER + XOR_DEF), (U, XOR_BODY, BLK_STRIDE)])
+T("C20", "twin-xor-blocks-rotated-key", U, "", "", edits=[(U, XOR_DEF, BLK_HELPER + XOR_DEF), (U, XOR_BODY, BLK_ROTATED)])
+T("C20", "twin-xor-blocks-stride-rounded-down-undecided", U, "", "", edits=[(U, XOR_DEF, BLK_HELPER + XOR_DEF), (U, XOR_BODY, BLK_ROUNDED)])
+T("C20", "twin-xor-blocks-shared-cycle-iterator-undecided", U, XOR_BODY, BLK_CYCLE)
+
+# ---- R2: a returning path of unpack / pack that reads neither `signed` nor `byteorder` is only right where the conversion
+# does not depend on them (empty chunk; one byte for the byte order)
+M("C20", "unpack-two-byte-fast-path-ignores-order-and-sign", U, UNPACK_RET, "    if size == 2 and len(data) >= 2:\n        return data[0] | (data[1] << 8)\n" + UNPACK_RET, "C20.R2")
+M("C20", "unpack-single-byte-data-shortcut-ignores-sign", U, UNPACK_RET, "    if len(data) == 1:\n        return data[0]\n" + UNPACK_RET, "C20.R2")
+M("C20", "pack-two-byte-fast-path-ignores-order", U, PACK_BODY, "    if size == 2 and not signed:\n        return bytes((n & 0xFF, (n >> 8) & 0xFF))\n" + PACK_BODY, "C20.R2")
+T("C20", "twin-unpack-empty-data-shortcut", U, UNPACK_RET, "    if not data:\n        return 0\n" + UNPACK_RET)
+T("C20", "twin-unpack-unsigned-byte-fast-path", U, UNPACK_RET, "    if size == 1 and not signed and data:\n        return data[0]\n" + UNPACK_RET)
+T("C20", "twin-pack-small-byte-fast-path", U, PACK_BODY, "    if size == 1 and 0 <= n < 128:\n        return bytes((n,))\n" + PACK_BODY)
+T("C20", "twin-unpack-signed-branches", U, UNPACK_RET,
+  "    if signed:\n        return int.from_bytes(data[:size], byteorder, signed=True)\n    return int.from_bytes(data[:size], byteorder)\n")
+M("C20", "xor-blocks-rotated-key-off-by-one", U, "", "", "C20.R1", edits=[(U, XOR_DEF, BLK_HELPER + XOR_DEF), (U, XOR_BODY, BLK_ROTATED.replace("r = start % len(key)", "r = (start + 1) % len(key)"))])
+T("C20", "twin-xor-blocks-rotated-key-plus-whole-periods", U, "", "", edits=[(U, XOR_DEF, BLK_HELPER + XOR_DEF), (U, XOR_BODY, BLK_ROTATED.replace("r = start % len(key)", "r = (start + 3 * len(key)) % len(key)"))])
+BLK_ONE_BYTE_KEY = "    if len(key) == 1 and len(data) > 4096:\n        return b\"\".join(xor(data[o : o + 4096], key) for o in range(0, len(data), 4096))\n"
+T("C20", "twin-xor-blocks-only-for-one-byte-keys-undecided", U, XOR_GUARD, XOR_GUARD + BLK_ONE_BYTE_KEY)
+M("C20", "xor-blocks-for-keys-shorter-than-data", U, XOR_GUARD, XOR_GUARD + BLK_ONE_BYTE_KEY.replace("len(key) == 1", "len(key) < len(data)"), "C20.R1")
+T("C20", "twin-unpack-one-byte-fast-path-fixed-order", U, UNPACK_RET, '    if size == 1:\n        return int.from_bytes(data[:1], "big", signed=signed)\n' + UNPACK_RET)
+M("C20", "unpack-two-byte-fast-path-fixed-order", U, UNPACK_RET, '    if size == 2:\n        return int.from_bytes(data[:2], "big", signed=signed)\n' + UNPACK_RET, "C20.R2")
+M("C20", "unpack-fast-path-beside-broken-general-path", U, UNPACK_RET, "    if size == 1 and not signed and data:\n        return data[0]\n    return int.from_bytes(data[:size], byteorder=byteorder)\n", "C20.R2")
+UNPACK_LOOP = (
+    '    value = 0\n    for b in (data[:size] if byteorder == "big" else reversed(data[:size])):\n        value = (value << 8) | b\n'
+    "    if signed and data[:size] and value >> (8 * len(data[:size]) - 1):\n        value -= 1 << (8 * len(data[:size]))\n    return value\n"
+)
+T("C20", "twin-unpack-manual-accumulation-loop-undecided", U, UNPACK_RET, UNPACK_LOOP)
+M("C20", "unpack-manual-accumulation-loop-ignores-order", U, UNPACK_RET, UNPACK_LOOP.replace('(data[:size] if byteorder == "big" else reversed(data[:size]))', "reversed(data[:size])"), "C20.R2")
+BLK_SPLIT_ROT = XOR_GUARD + "    if len(data) > 1024:\n        r = 1024 % len(key)\n        return xor(data[:1024], key) + xor(data[1024:], key[r:] + key[:r])\n"
+T("C20", "twin-xor-head-tail-split-with-rotated-key", U, XOR_GUARD, BLK_SPLIT_ROT)
+M("C20", "xor-head-tail-split-rotated-by-wrong-offset", U, XOR_GUARD, BLK_SPLIT_ROT.replace("r = 1024 % len(key)", "r = 1000 % len(key)"), "C20.R1")
